@@ -527,7 +527,7 @@ def cases(draw):
 
 
 def run(ctx):
-    ctx.run_given(cases(), run_case, ctx.n(quick=600, thorough=12000))
+    ctx.run_given(cases(), run_case, ctx.n(quick=600, thorough=5000))
 
 
 def replay(case, ctx):
